@@ -82,3 +82,8 @@ Definition check_write_cmd (ds : list sdirective) : cresult str :=
 
 (* the collected assertions as syntax-level directives (what reading the printed text gives) *)
 Definition assertion_sdirective (a : wassertion) : sdirective := SAssert (fst a) (snd a).
+
+(* the command as a function of the loaded journal (the form of Model/Source.v [check_of],
+   [print_of]: C06's arrival theorems apply to every function of the builder) *)
+Definition check_write_of (b : builder) : cresult str :=
+  cbind (run_stage check_write_proc wstate_init (b_days b)) (fun r => COk (write_file (snd (fst r)))).
